@@ -196,6 +196,47 @@ func runRoundTrips(t *testing.T, r *ev.Rec, prefix string, codecs []codec, gobFo
 		r.Cells(total, done)
 		r.Exhaustive("default-lang", !r.Replaying())
 	}
+	// a value that holds everything its type can hold, with one property at a time set to something that says nothing (an empty
+	// list, a language list without text, an empty endpoints value): nothing may go missing around it
+	if r.WantLayer("one-empty", true) {
+		total, done := 0, 0
+		for _, c := range codecs {
+			for _, st := range vocab.StructTypes {
+				for _, f := range vocab.Fields(st) {
+					var empties []reflect.Value
+					switch f.Kind {
+					case vocab.KItem:
+						var it ap.Item = ap.ItemCollection{}
+						empties = append(empties, reflect.ValueOf(&it).Elem())
+					case vocab.KItems:
+						empties = append(empties, reflect.ValueOf(ap.ItemCollection{}))
+					case vocab.KNLV:
+						empties = append(empties, reflect.ValueOf(ap.NaturalLanguageValues{}), reflect.ValueOf(ap.NaturalLanguageValues{{Ref: "en", Value: ap.Content("")}}))
+					case vocab.KEndpoints:
+						empties = append(empties, reflect.ValueOf(&ap.Endpoints{}))
+					}
+					for ei, e := range empties {
+						total++
+						id := fmt.Sprintf("%s %s.%s empty#%d", c.name, st.Name(), f.Name, ei)
+						if !r.WantCell(id) {
+							continue
+						}
+						done++
+						x := vocab.Everything(st, gobForm)
+						reflect.ValueOf(x).Elem().Field(f.Index).Set(e)
+						ds, _ := roundTrip(c, x, prefix, st.Name()+"."+f.Name+"=empty")
+						for k := range ds {
+							ds[k].Key += " one-empty"
+						}
+						r.Case(id, true, "one-empty")
+						reportAll(r, "one-empty", id, ds, map[string]interface{}{"entry": c.name, "value": vocab.Dump(x)})
+					}
+				}
+			}
+		}
+		r.Cells(total, done)
+		r.Exhaustive("one-empty", !r.Replaying())
+	}
 	if r.WantLayer("everything", true) {
 		for _, c := range codecs {
 			for _, st := range vocab.StructTypes {
